@@ -1,4 +1,5 @@
 import TakVerif.Proofs.FPAMini
+import TakVerif.Proofs.FPAFast
 import TakVerif.Proofs.FPAPinned
 
 /-! # C20 — first-player-advantage opening scripts always produce legal, self-accepted moves
@@ -20,7 +21,7 @@ counterpart of `Position.AllMoves`, C03; the exhaustive correspondence `fpaopts`
 it yields with those of the real generator for every node of every opening, sizes 4..8), and the link
 from `Spec.step` to the bit-level `Position.Move` (C01). -/
 namespace C20
-open Tak Tak.FPA Spec.FPA Proofs.FPA Proofs.FPAMini Proofs.FPAPinned
+open Tak Tak.FPA Spec.FPA Proofs.FPA Proofs.FPAMini Proofs.FPAPinned Proofs.FPAFast
 
 /-- C20 for one variant, bot colour and board size -/
 def Holds (var : Variant) (color : Color) (size horizon : Nat) : Prop :=
@@ -65,11 +66,11 @@ theorem fpa_centre : ∀ size ∈ [4, 5, 6, 7, 8], ∀ color ∈ [Color.white, C
 
 /-! ## double stack and cairn -/
 
-/-- the full claim for the double-stack variant -/
+/-- the full claim for the double-stack variant (proved: `fpa_doubleStack` in `Props/C20_all.lean`) -/
 def fpa_doubleStack_statement : Prop :=
   ∀ size ∈ [4, 5, 6, 7, 8], ∀ color ∈ [Color.white, Color.black], Holds .doubleStack color size 6
 
-/-- the full claim for the cairn variant -/
+/-- the full claim for the cairn variant (proved part: `fpa_cairn_partial` in `Props/C20_all.lean`) -/
 def fpa_cairn_statement : Prop :=
   ∀ size ∈ [4, 5, 6, 7, 8], ∀ color ∈ [Color.white, Color.black], Holds .cairn color size 6
 
@@ -79,12 +80,23 @@ board is proved to be a homomorphic image of the rule book).  The evaluation is 
 (`decide +kernel`) whose cost grows with the number of openings (≈ size⁴; about one CPU-minute and
 1.5 GB per 200 openings): it is carried out, cut into one piece per first move, for the 4×4 and 5×5
 boards (`Props/C20_size4.lean`, `Props/C20_size5.lean`: `fpa_doubleStack_partial*`, `fpa_cairn_partial*`
-— an even and an odd board, which take different branches of the centre geometry); sizes 6..8 are
-covered on every run by the exhaustive correspondence of the same model against the real code, not by
-a kernel evaluation. -/
+— an even and an odd board, which take different branches of the centre geometry).  Sizes 6..8 go
+through the faster evaluator (`holds_of_fcheck` below; `Props/C20_size6..8.lean`), and
+`Props/C20_all.lean` combines the sizes: `fpa_doubleStack` proves `fpa_doubleStack_statement`;
+`fpa_cairn_partial` is the proved part of `fpa_cairn_statement` (what is missing — the bot as Black on
+6×6, both colours on 7×7 and 8×8 — is covered on every run by the exhaustive correspondence of the same
+model against the real code, not by a kernel evaluation). -/
 theorem holds_of_check (var : Variant) (color : Color) (size : Nat)
     (h : check miniBoard FM var color 6 (minit size) = true) : Holds var color size 6 :=
   mini_sound var color 6 size h
+
+/-- The same through the faster evaluator `Proofs.FPAFast.fcheck` (sizes 6..8): at every node where the
+move is free it tests only the slides from the occupied squares and the flat placements on the few
+squares the variant's rule can accept at that ply (`fast_complete`: no accepted legal move of the
+generator is left out), and it does not build the states after the last scripted ply (`good_late`). -/
+theorem holds_of_fcheck (var : Variant) (color : Color) (size : Nat)
+    (h : fcheck var color 6 (minit size) = true) : Holds var color size 6 :=
+  holds_of_check var color size (fcheck_check var color 6 (minit size) h)
 
 /-! ## the pinned scripts violate the claim (the three defect families, on concrete openings) -/
 
